@@ -140,7 +140,8 @@ func (f *ruleFactory) CreateRule(version, srcID string, ruleConfig config2.Rule)
 			&routeImpl{
 				rule:    rul,
 				path:    rc.Path,
-				matcher: compositeMatcher{sm, mm, hm, ppm},
+				// the request host has to satisfy any one of the configured host expressions
+				matcher: compositeMatcher{sm, mm, anyOfMatcher(hm), ppm},
 			})
 	}
 
